@@ -43,9 +43,10 @@ def main():
     pid, wt, n = sys.argv[1], sys.argv[2], sys.argv[3]
     tier = sys.argv[sys.argv.index("--tier") + 1] if "--tier" in sys.argv else "quick"
     check_as = sys.argv[sys.argv.index("--check-as") + 1] if "--check-as" in sys.argv else pid
+    dest_n = sys.argv[sys.argv.index("--dest") + 1] if "--dest" in sys.argv else n
     src = os.path.join(wt, "SEEDED", n)
     patch = os.path.join(src, "patch.diff")
-    meta = {"property": pid, "source": "independent sub-agent given only the property text and a scratch worktree", "n": n,
+    meta = {"property": pid, "source": "independent sub-agent given only the property text and a scratch worktree", "n": dest_n, "round": (2 if dest_n != n else 1),
             "validated_at": time.strftime("%Y-%m-%dT%H:%M:%SZ", time.gmtime())}
     sh("git checkout -- .", cwd=wt)
     rc0, out0 = sh("bash SEEDED/%s/demo.sh" % n, cwd=wt, timeout=1800)
@@ -60,7 +61,7 @@ def main():
         meta["demo_with_change_tail"] = out1[-600:]
     sh("git checkout -- .", cwd=wt)
     # the check against a scratch copy of /repo carrying the change
-    copy = "/tmp/repo-seed-%s-%s" % (pid.lower(), n)
+    copy = "/tmp/repo-seed-%s-%s" % (pid.lower(), dest_n)
     sh("rm -rf %s && rsync -a --exclude target /repo/ %s/" % (copy, copy))
     rc, out = sh("git apply %s" % patch, cwd=copy)
     if rc != 0:
@@ -87,7 +88,7 @@ def main():
     ok = (meta.get("demo_unmodified_exit") == 0 and meta.get("demo_with_change_exit", 0) != 0 and
           meta.get("suite_with_change", {}).get("compiled") and meta.get("suite_with_change", {}).get("failing_tests", ["x"]) in ([], ["quote"]))
     meta["confirmed"] = bool(ok)
-    dst = os.path.join(ROOT, "seeded", pid, n)
+    dst = os.path.join(ROOT, "seeded", pid, dest_n)
     if os.path.exists(dst):
         shutil.rmtree(dst)
     os.makedirs(dst)
@@ -100,7 +101,7 @@ def main():
         m = re.search(r"(?is)(trigger|needs|manifest)[^\n]*\n(.{0,600})", txt)
         meta["needs_to_manifest"] = (m.group(0)[:700] if m else txt[:700])
     json.dump(meta, open(os.path.join(dst, "meta.json"), "w"), indent=1)
-    print("%s/%s confirmed=%s caught=%s %s" % (pid, n, meta["confirmed"], meta.get("check", {}).get("caught"), meta.get("check", {}).get("violations", [])[:2]))
+    print("%s/%s confirmed=%s caught=%s %s" % (pid, dest_n, meta["confirmed"], meta.get("check", {}).get("caught"), meta.get("check", {}).get("violations", [])[:2]))
 
 
 if __name__ == "__main__":
